@@ -1620,6 +1620,22 @@ impl<'a> Engine<'a> {
         if !self.light { self.cx.rep.hit(&format!("fmt:{}:{}", names[which], fill_name(len, N))); }
         // independently observed entry sequence, in iteration order
         let obs: Vec<(u32, u32, u32)> = s.fr.get().iter().map(|(k, v)| (k.class(), k.tag(), v.payload())).collect();
+        if self.rng.chance(1, 3) {
+            // a rendering into a sink that fails part-way comes first: it must end in Err, and the renderings
+            // checked below must not contain anything it left behind
+            use std::fmt::Write as _;
+            let mut sink = crate::common::Bounded { left: self.rng.usize_below(24) };
+            let r = fault::catch(|| {
+                let m = s.fr.get();
+                let a = write!(sink, "{}", m).is_err();
+                let b = write!(sink, "{:?}", m).is_err();
+                (a, b)
+            });
+            if let Caught::Panic(msg) = r {
+                self.h.viol("C19", "failing-sink-panics", format!("formatting into a sink that returns Err panicked: {}", msg));
+            }
+            if !self.light { self.cx.rep.hit("fmt:after-failing-sink"); }
+        }
         let kd = |e: &(u32, u32, u32)| F::K::dbg_render(e.0, e.1);
         let vd = |e: &(u32, u32, u32)| F::V::dbg_render(e.2);
         let pair = |e: &(u32, u32, u32)| format!("({},{})", kd(e), vd(e));
@@ -2523,6 +2539,7 @@ pub fn required_rows(prop: &str) -> Vec<&'static str> {
         "C05" => vec!["insert", "checked_insert", "remove", "retain", "entry.", "index"],
         "C09" => vec!["iter:", "iter_mut:", "keys:", "values:", "values_mut:", "adaptor:"],
         "C10" => vec!["drain", "into_iter", "into_keys", "into_values"],
+        "C03" => vec!["insert", "entry."],
         "C11" => vec!["entry."],
         "C12" => vec!["insert", "insert_key_value", "checked_insert", "remove_entry", "entry.", "rebuild"],
         "C15" => vec!["clone", "drop-copy", "clone_from"],
